@@ -116,7 +116,7 @@ PROPS = {
                      "the session may access the key"],
     ),
     "C09": dict(
-        units=["security", "store", "dispatch", "permissions", "outbox", "sessions"],
+        units=["security", "store", "dispatch", "permissions", "outbox", "sessions", "parser"],
         kani=[K_AUTH, K_KIND],
         undecided=["dispatcher arms that are not a single guard call: Auth, UseDb (failed use-db leaving the selection untouched is checked by the bounded sweep only), "
                    "Resolve, ReplicateRequest (rp); the closure bodies handed to the guards are abstracted (R10), so WHAT an arm does once allowed is not verified here",
@@ -179,7 +179,7 @@ PROPS = {
                      "sessions are modelled abstractly in the accounting lemmas: a map from session ids to the selected database"],
     ),
     "C05": dict(
-        units=["sync", "outbox", "oplog"],
+        units=["sync", "outbox", "oplog", "parser"],
         undecided=["the protocol: join / replicate-since handshake, the supervisor loop, sockets, writes accepted during the synchronisation (async code, several processes)",
                    "the incremental path: that the operation-log query reports every pair changed since `since` is C12 (unit oplog); here ops_since(since) is any map of records whose "
                    "identifiers decode (precondition `decodes`: C16's subject); the comparison closure of its sort_by is replaced by a trusted shim (log order)",
